@@ -21,7 +21,8 @@ theorem noFalseNeg_of_inv (cfg : Cfg) (hW : 1 ≤ cfg.W) (n : Node) (hinv : Inv 
   exact ⟨hinv.wf, this.1, this.2, by rcases hinv.floor_lt with h | h <;> omega⟩
 
 /-- The code in /repo: all three round-1 repairs in. -/
-def Repaired (cfg : Cfg) : Prop := cfg.fixCache = true ∧ cfg.fixSnap = true ∧ cfg.fixPersist = true
+def Repaired (cfg : Cfg) : Prop :=
+  cfg.fixCache = true ∧ cfg.fixSnap = true ∧ cfg.fixPersist = true ∧ cfg.fixInit = true
 
 /-- The only hypotheses on a history: every stored block's header bloom covers the block's events
 (what `core.EventsBloom` computes: the superset assumption on bloom filters, checked on the real
@@ -81,7 +82,7 @@ theorem histOK_of_repaired (cfg : Cfg) (hr : Repaired cfg) (ops : List Op) :
     intro n h
     cases op with
     | store blk => exact ⟨h.1, ih _ h.2⟩
-    | revert => exact ⟨⟨⟨Or.inl hr.1, Or.inl hr.2.1, Or.inl hr.2.2⟩, h.1⟩, ih _ h.2⟩
+    | revert => exact ⟨⟨⟨Or.inl hr.1, Or.inl hr.2.1, Or.inl hr.2.2.1⟩, h.1⟩, ih _ h.2⟩
     | snap => exact ⟨trivial, ih _ h⟩
     | restart => exact ⟨trivial, ih _ h⟩
     | query f a b t c l => exact ⟨trivial, ih _ h⟩
